@@ -93,8 +93,11 @@ VARIANTS = [
     # (tag, asn1c options, extra cflags for skeletons AND generated code, tiers, regex of skeleton files left out)
     ("native", ("-fcompound-names",), (), ("quick", "thorough"), None),
     ("wide-indirect", ("-fcompound-names", "-fwide-types", "-findirect-choice"), (), ("quick", "thorough"), None),
-    # "-fno-constraints" is not a variant: for a member with a subtype constraint the unchanged asn1c then emits a member table
-    # that refers to asn_PER_memb_*/asn_OER_memb_* records it no longer declares (uncompilable; a code-generation matter, not C19)
+    # "-fno-constraints" is not a variant: buildable since /repo commit bfcde1e, but a type that is a reference to another one
+    # (`Tagged ::= [APPLICATION 3] EXPLICIT Inner`) then gets `{ 0, 0, 0 }` encoding constraints and asn_check_constraints() calls
+    # the NULL checker (SIGSEGV on 60 of 221 types; a code-generation matter, passed on, not C19)
+    # unnamed unions change the layout of every CHOICE structure
+    ("unnamed-unions", ("-fcompound-names", "-funnamed-unions"), (), ("thorough",), None),
     # the last field: skeleton sources asn1c leaves out with that option (they do not compile with the matching -D)
     ("nooer", ("-fcompound-names", "-no-gen-OER"), ("-DASN_DISABLE_OER_SUPPORT",), ("thorough",), r"(^oer_|_oer\.c$)"),
     ("noper", ("-fcompound-names", "-no-gen-PER"), ("-DASN_DISABLE_PER_SUPPORT",), ("thorough",), None),
